@@ -166,3 +166,200 @@ Proof.
   cbn [handle has_handler negb svc_of] in H. destruct (check_session s SvcWrite tok); [discriminate|].
   cbn [dispatch] in H. destruct (srv_write_all (sv_items s) (sv_space s) l) as [sp sts0]. inv_pair H. reflexivity.
 Qed.
+
+(* ---------------- association lists ---------------- *)
+
+Lemma alist_get_in' : forall A k (v : A) l, alist_get k l = Some v -> In (k, v) l.
+Proof.
+  induction l as [|[k' v'] t IH]; cbn [alist_get]; [discriminate|].
+  destruct (k' =? k) eqn:E; intros H.
+  - inversion H; subst. apply N.eqb_eq in E. subst. now left.
+  - right. now apply IH.
+Qed.
+
+Lemma alist_get_del_same : forall A k (l : list (N * A)), alist_get k (alist_del k l) = None.
+Proof.
+  induction l as [|[k' v'] t IH]; cbn [alist_del alist_get]; [reflexivity|].
+  destruct (k' =? k) eqn:E; [exact IH|]. cbn [alist_get]. now rewrite E.
+Qed.
+
+Lemma alist_get_del_other : forall A k k' (l : list (N * A)), k <> k' -> alist_get k (alist_del k' l) = alist_get k l.
+Proof.
+  induction l as [|[k2 v2] t IH]; intros Hne; cbn [alist_del alist_get]; [reflexivity|].
+  destruct (k2 =? k') eqn:E.
+  - apply N.eqb_eq in E. subst k2. destruct (k' =? k) eqn:E2; [apply N.eqb_eq in E2; congruence | now apply IH].
+  - cbn [alist_get]. destruct (k2 =? k); [reflexivity | now apply IH].
+Qed.
+
+Lemma in_alist_set : forall A k (v : A) l e, In e (alist_set k v l) -> e = (k, v) \/ In e l.
+Proof.
+  induction l as [|[k' v'] t IH]; intros e H; cbn [alist_set] in H.
+  - destruct H as [H|[]]. now left.
+  - destruct (k' =? k).
+    + destruct H as [H|H]; [now left | right; now right].
+    + destruct H as [H|H]; [right; now left|]. destruct (IH _ H) as [H'|H']; [now left | right; now right].
+Qed.
+
+Lemma in_alist_del : forall A k (l : list (N * A)) e, In e (alist_del k l) -> In e l.
+Proof.
+  induction l as [|[k' v'] t IH]; intros e H; cbn [alist_del] in H; [exact H|].
+  destruct (k' =? k); [right; now apply IH|]. destruct H as [H|H]; [now left | right; now apply IH].
+Qed.
+
+Lemma alist_get_none_above : forall A (l : list (N * A)) bound k,
+  (forall e, In e l -> fst e <= bound) -> bound < k -> alist_get k l = None.
+Proof.
+  induction l as [|[k' v'] t IH]; intros bound k Hb Hk; cbn [alist_get]; [reflexivity|].
+  destruct (k' =? k) eqn:E.
+  - apply N.eqb_eq in E. subst k'. specialize (Hb (k, v') (or_introl eq_refl)). cbn [fst] in Hb. lia.
+  - eapply IH; [|exact Hk]. intros e He. apply Hb. now right.
+Qed.
+
+Lemma keys_alist_set : forall A k (v : A) l, alist_get k l = None -> map fst (alist_set k v l) = map fst l ++ [k].
+Proof.
+  induction l as [|[k' v'] t IH]; cbn [alist_get alist_set map app]; [reflexivity|].
+  destruct (k' =? k) eqn:E; [discriminate|]. intros H. cbn [map fst]. now rewrite IH.
+Qed.
+
+Lemma alist_get_none_notin : forall A k (l : list (N * A)), alist_get k l = None -> ~ In k (map fst l).
+Proof.
+  induction l as [|[k' v'] t IH]; cbn [alist_get map fst]; [intros _ []|].
+  destruct (k' =? k) eqn:E; [discriminate|]. intros H [C|C]; [apply N.eqb_neq in E; congruence | now apply IH].
+Qed.
+
+Lemma nodup_keys_set_fresh : forall A k (v : A) l, alist_get k l = None -> NoDup (map fst l) -> NoDup (map fst (alist_set k v l)).
+Proof.
+  intros A k v l Hn Hd. rewrite keys_alist_set by exact Hn.
+  apply NoDup_rev in Hd. rewrite <- (rev_involutive (map fst l ++ [k])). apply NoDup_rev.
+  rewrite rev_app_distr. cbn [rev app]. constructor; [|exact Hd].
+  rewrite <- in_rev. now apply alist_get_none_notin.
+Qed.
+
+Lemma keys_alist_set_present : forall A k (v v0 : A) l, alist_get k l = Some v0 -> map fst (alist_set k v l) = map fst l.
+Proof.
+  induction l as [|[k' v'] t IH]; cbn [alist_get alist_set map]; [discriminate|].
+  destruct (k' =? k) eqn:E; intros H; cbn [map fst].
+  - apply N.eqb_eq in E. now subst.
+  - now rewrite IH.
+Qed.
+
+Lemma nodup_keys_del : forall A k (l : list (N * A)), NoDup (map fst l) -> NoDup (map fst (alist_del k l)).
+Proof.
+  induction l as [|[k' v'] t IH]; intros H; cbn [alist_del map]; [constructor|].
+  cbn [map fst] in H. inversion H as [|x xs Hx Hd]; subst.
+  destruct (k' =? k); [now apply IH|]. cbn [map fst]. constructor; [|now apply IH].
+  intros C. apply Hx. apply in_map_iff in C. destruct C as (e & He & Hin). apply in_map_iff. exists e. split; [exact He|].
+  eapply in_alist_del; eassumption.
+Qed.
+
+Lemma nodup_keys_filter : forall A (p : N * A -> bool) l, NoDup (map fst l) -> NoDup (map fst (filter p l)).
+Proof.
+  induction l as [|e t IH]; intros H; cbn [filter map]; [constructor|].
+  cbn [map] in H. inversion H as [|x xs Hx Hd]; subst.
+  destruct (p e); [|now apply IH]. cbn [map]. constructor; [|now apply IH].
+  intros C. apply Hx. apply in_map_iff in C. destruct C as (e' & He & Hin). apply in_map_iff. exists e'. split; [exact He|].
+  apply filter_In in Hin. tauto.
+Qed.
+
+(* ---------------- C35: the session gate ---------------- *)
+
+Lemma gate_blocks : forall fuel s chan tok r, has_handler r = true -> session_required (svc_of r) = true ->
+  alist_get tok (sv_sessions s) <> Some true ->
+  exists st, handle fuel s (EReq chan tok r) = (s, OFault st) /\ (st = StBadSessionIDInvalid \/ st = StBadSessionNotActivated).
+Proof.
+  intros fuel s chan tok r Hh Hr Hn. cbn [handle]. rewrite Hh. cbn [negb]. unfold check_session. rewrite Hr.
+  destruct (alist_get tok (sv_sessions s)) as [[|]|]; [congruence | |]; eexists; (split; [reflexivity|]); tauto.
+Qed.
+
+Lemma no_handler_fault : forall fuel s chan tok r, has_handler r = false ->
+  handle fuel s (EReq chan tok r) = (s, OFault StBadServiceUnsupported).
+Proof. intros. cbn [handle]. now rewrite H. Qed.
+
+(* the session table is driven by the session services alone *)
+Definition sess_step (ss : list (token * bool)) (e : event) : list (token * bool) :=
+  match e with
+  | EReq _ _ (RCreateSession fresh _) => alist_set fresh false ss
+  | EReq _ tok (RActivate true) => match alist_get tok ss with Some _ => alist_set tok true ss | None => ss end
+  | EReq _ tok RCloseSession => alist_del tok ss
+  | _ => ss
+  end.
+
+Lemma alist_del_absent : forall A k (l : list (N * A)), alist_get k l = None -> alist_del k l = l.
+Proof.
+  induction l as [|[k' v'] t IH]; cbn [alist_get alist_del]; [reflexivity|].
+  destruct (k' =? k); [discriminate|]. intros H. now rewrite IH.
+Qed.
+
+Lemma handle_sessions : forall fuel s e s' o, handle fuel s e = (s', o) -> sv_sessions s' = sess_step (sv_sessions s) e.
+Proof.
+  intros fuel s e s' o H. destruct e as [chan tok r|id|id]; cbn [handle] in H; [|now inv_pair H|now inv_pair H].
+  destruct (negb (has_handler r)) eqn:EH.
+  { inv_pair H. destruct r; try reflexivity; discriminate. }
+  destruct (check_session s (svc_of r) tok) eqn:EC.
+  { inv_pair H. destruct r; try reflexivity; cbn [svc_of] in EC; unfold check_session in EC; cbn in EC; discriminate. }
+  destruct r; cbn [dispatch] in H; cbn [sess_step];
+    try (break_in H; inv_pair H; reflexivity).
+  - (* activate *) destruct (alist_get tok (sv_sessions s)) eqn:G; [|inv_pair H; destruct sig_ok; reflexivity].
+    destruct sig_ok; inv_pair H; reflexivity.
+  - (* close *) destruct (alist_get tok (sv_sessions s)) eqn:G; inv_pair H; [reflexivity|].
+    now rewrite alist_del_absent.
+Qed.
+
+Lemma run_sessions : forall fuel h s, sv_sessions (run fuel s h) = fold_left sess_step h (sv_sessions s).
+Proof.
+  unfold run. induction h as [|e t IH]; intros s; cbn [fold_left]; [reflexivity|].
+  rewrite IH. unfold step. destruct (handle fuel s e) as [s' o] eqn:E. cbn [fst].
+  now rewrite (handle_sessions _ _ _ _ _ E).
+Qed.
+
+(* an entry of the table comes from a CreateSession that handed the token out; an activated one from a later
+   successful ActivateSession with that token *)
+Lemma sess_created : forall h ss0 tok b, alist_get tok (fold_left sess_step h ss0) = Some b ->
+  alist_get tok ss0 <> None \/ exists c t ok, In (EReq c t (RCreateSession tok ok)) h.
+Proof.
+  induction h as [|e h IH] using rev_ind; intros ss0 tok b H; cbn [fold_left] in H.
+  - left. congruence.
+  - rewrite fold_left_app in H. cbn [fold_left] in H.
+    assert (Hkeep : forall b', alist_get tok (fold_left sess_step h ss0) = Some b' ->
+             alist_get tok ss0 <> None \/ exists c t ok, In (EReq c t (RCreateSession tok ok)) (h ++ [e])).
+    { intros b' Hb. destruct (IH _ _ _ Hb) as [L|(c & t & ok & Hin)]; [now left|]. right. exists c, t, ok. apply in_or_app. now left. }
+    set (ss := fold_left sess_step h ss0) in *.
+    destruct e as [c t r| |]; cbn [sess_step] in H; try (eapply Hkeep; eassumption).
+    destruct r; try (eapply Hkeep; eassumption).
+    + destruct (N.eq_dec tok fresh) as [->|Hne].
+      * right. exists c, t, crypto_ok. apply in_or_app. right. now left.
+      * rewrite alist_get_set_other in H by exact Hne. eapply Hkeep; eassumption.
+    + destruct sig_ok; [|eapply Hkeep; eassumption].
+      destruct (alist_get t ss) eqn:G; [|eapply Hkeep; eassumption].
+      destruct (N.eq_dec tok t) as [->|Hne]; [eapply Hkeep; eassumption|].
+      rewrite alist_get_set_other in H by exact Hne. eapply Hkeep; eassumption.
+    + destruct (N.eq_dec tok t) as [->|Hne]; [rewrite alist_get_del_same in H; discriminate|].
+      rewrite alist_get_del_other in H by exact Hne. eapply Hkeep; eassumption.
+Qed.
+
+Lemma sess_activated : forall h ss0 tok, alist_get tok (fold_left sess_step h ss0) = Some true ->
+  alist_get tok ss0 = Some true \/ exists c, In (EReq c tok (RActivate true)) h.
+Proof.
+  induction h as [|e h IH] using rev_ind; intros ss0 tok H; cbn [fold_left] in H.
+  - now left.
+  - rewrite fold_left_app in H. cbn [fold_left] in H.
+    assert (Hkeep : alist_get tok (fold_left sess_step h ss0) = Some true ->
+             alist_get tok ss0 = Some true \/ exists c, In (EReq c tok (RActivate true)) (h ++ [e])).
+    { intros Hb. destruct (IH _ _ Hb) as [L|(c & Hin)]; [now left|]. right. exists c. apply in_or_app. now left. }
+    set (ss := fold_left sess_step h ss0) in *.
+    destruct e as [c t r| |]; cbn [sess_step] in H; try (apply Hkeep; exact H).
+    destruct r; try (apply Hkeep; exact H).
+    + destruct (N.eq_dec tok fresh) as [->|Hne]; [rewrite alist_get_set_same in H; discriminate|].
+      rewrite alist_get_set_other in H by exact Hne. apply Hkeep; exact H.
+    + destruct sig_ok; [|apply Hkeep; exact H].
+      destruct (alist_get t ss) eqn:G; [|apply Hkeep; exact H].
+      destruct (N.eq_dec tok t) as [->|Hne].
+      * right. exists c. apply in_or_app. right. now left.
+      * rewrite alist_get_set_other in H by exact Hne. apply Hkeep; exact H.
+    + destruct (N.eq_dec tok t) as [->|Hne]; [rewrite alist_get_del_same in H; discriminate|].
+      rewrite alist_get_del_other in H by exact Hne. apply Hkeep; exact H.
+Qed.
+
+(* closing ends it: right after CloseSession with the token, the token names no session *)
+Lemma sess_closed : forall ss c tok, alist_get tok (sess_step ss (EReq c tok RCloseSession)) = None.
+Proof. intros. cbn [sess_step]. apply alist_get_del_same. Qed.
